@@ -22,6 +22,7 @@ import (
 // ---------------------------------------------------------------------------
 
 type scenario struct {
+	quietH bool // handler invocations are not observable in this scenario: H: events are not compared
 	kind   string
 	seed   int64
 	script []string
@@ -181,27 +182,29 @@ func (o *openMsg) full() []byte {
 }
 
 type wConn struct {
-	id       string
-	c        *websocket.Conn
-	t        *TConn
-	srv      bool
-	wbuf     int
-	cap      int // payload capacity of the write buffer
-	pool     bool
-	nego     bool
-	enableWC bool
-	level    int
-	handles  []io.WriteCloser
-	msgs     []*openMsg // per user handle
-	cur      *openMsg   // message that is c.writer (may be closed)
-	lastWrap *recorder
-	sent     []apiMsg // API-level messages reported as sent, in order
-	errSeen  bool
-	closeSnt bool
-	faulted  bool
-	wd       time.Time // the connection's write deadline as the program set it
-	live     bool      // a message is in progress from the API's point of view (C20 oracle)
-	f8       bool      // a prepared data message was sent while a message writer was open (finding F8)
+	ks           *keySource // the scenario's mask key source
+	usedPrepared bool       // a prepared message was sent on this connection
+	id           string
+	c            *websocket.Conn
+	t            *TConn
+	srv          bool
+	wbuf         int
+	cap          int // payload capacity of the write buffer
+	pool         bool
+	nego         bool
+	enableWC     bool
+	level        int
+	handles      []io.WriteCloser
+	msgs         []*openMsg // per user handle
+	cur          *openMsg   // message that is c.writer (may be closed)
+	lastWrap     *recorder
+	sent         []apiMsg // API-level messages reported as sent, in order
+	errSeen      bool
+	closeSnt     bool
+	faulted      bool
+	wd           time.Time // the connection's write deadline as the program set it
+	live         bool      // a message is in progress from the API's point of view (C20 oracle)
+	f8           bool      // a prepared data message was sent while a message writer was open (finding F8)
 }
 
 // closeOnWire: has this connection already written a close frame (by whatever path)?
@@ -347,6 +350,7 @@ func (g *wGen) newConn(id string) *wConn {
 		pool = g.pool
 	}
 	wc.c = websocket.VerifNewConn(wc.t, wc.srv, 0, wc.wbuf, pool, nil, nil)
+	wc.ks = g.ks
 	if wc.nego {
 		websocket.VerifSetCompression(wc.c, func(w io.WriteCloser) io.WriteCloser {
 			rec := &recorder{w: w}
@@ -784,6 +788,7 @@ func (g *wGen) opNewPrepared() {
 }
 
 func (g *wGen) opWritePrepared(wc *wConn, pm *wPM) {
+	wc.usedPrepared = true
 	wc.t.wantDeadline(wc.wd)
 	compress := wc.nego && wc.enableWC && (pm.t == 1 || pm.t == 2)
 	key := fmt.Sprintf("%v/%v/%d", wc.srv, compress, wc.level)
@@ -836,6 +841,10 @@ func (g *wGen) opWritePrepared(wc *wConn, pm *wPM) {
 	pm.cached[key] = true
 	if err == nil {
 		wc.sent = append(wc.sent, apiMsg{t: pm.t, payload: pm.data})
+	} else if !wc.errSeen && !wc.faulted && !wc.closeOnWire() {
+		// C19: a prepared message is a valid request wherever WriteMessage of the same message is: whatever
+		// became of the writer the application had left open (its close may fail), the message is sent
+		g.sc.violate("%s: WritePreparedMessage(type %d, %d bytes) was refused on a healthy connection: %v", wc.id, pm.t, len(pm.data), err)
 	}
 	// C19: the framing variant matches this connection's role and compression settings at the time of
 	// the call (judged on the bytes handed to the transport by this call)
@@ -908,6 +917,21 @@ func (g *wGen) step() {
 		openH = len(wc.handles) - 1
 	}
 	x := r.Intn(100)
+	if g.opt.prepared && g.opt.invalid && len(g.pms) > 0 && r.Intn(20) == 0 {
+		// a writer for a control message left open with more than 125 bytes in it (closing it fails),
+		// then a message: the abandoned writer is discarded and the message goes out all the same
+		g.opNextWriter(wc, 9+r.Intn(2))
+		if len(wc.handles) > 0 {
+			g.opWrite(wc, len(wc.handles)-1, g.bytes(126+r.Intn(60)), false)
+		}
+		if pm := g.pms[r.Intn(len(g.pms))]; pm != nil && r.Intn(3) > 0 {
+			g.opWritePrepared(wc, pm)
+		} else {
+			g.opWriteMessage(wc, 1+r.Intn(2), g.bytes(r.Intn(300)))
+		}
+		g.sc.tag("stale-oversized-control-writer")
+		return
+	}
 	if g.opt.preparedHeavy && r.Intn(3) > 0 {
 		x = 99
 	}
@@ -1024,6 +1048,9 @@ func runWriterScenario(seed int64, opt wOpts, faultAt int, faultKind string) *sc
 	g := &wGen{rng: r, sc: sc, log: &evlog{}, opt: opt}
 	g.pool = &tPool{log: g.log}
 	nk := 1 + r.Intn(6)
+	if r.Intn(2) == 0 {
+		nk = 48 // enough distinct keys for every frame of the scenario to get its own
+	}
 	keys := make([]byte, 4*nk)
 	for i := range keys {
 		keys[i] = byte(r.Intn(256))
@@ -1101,6 +1128,29 @@ func writerOracle(sc *scenario, wc *wConn) {
 	// every transport write happens under the deadline the caller asked for (C10 deadline_applied)
 	if wc.t.wdBad != "" {
 		sc.violate("%s: %s", wc.id, wc.t.wdBad)
+	}
+	// C02: every client frame is masked with a key drawn from the random source for that frame: the
+	// keys on the wire, in order, are draws of the source in order, each draw used at most once
+	// (frames of prepared messages are cached with their key, so connections that sent one are skipped)
+	if !wc.srv && wc.ks != nil && !wc.usedPrepared {
+		di := 0
+		for i, f := range frames {
+			if !f.masked {
+				continue
+			}
+			found := false
+			for ; di < len(wc.ks.draws); di++ {
+				if wc.ks.draws[di] == f.key {
+					found = true
+					di++
+					break
+				}
+			}
+			if !found {
+				sc.violate("%s: frame %d (opcode %d, %d payload bytes) is masked with key %x, which is not a fresh draw of the random source (draws so far: %d)", wc.id, i, f.op, len(f.payload), f.key, len(wc.ks.draws))
+				break
+			}
+		}
 	}
 	// nothing after a close frame
 	for i, f := range frames {
